@@ -8,12 +8,13 @@ Local Open Scope list_scope.
 Local Open Scope N_scope.
 
 (* For every width, segment table, initial memory, input, breakpoint set, label table, command script and fuel:
-   if no line of the script is a quit command, the script does not run dry (no EOF at a prompt) and no pause banner
-   raised (guard for finding F11, see C15_transparent_refuted), the debugged run reports exactly the output, cause
-   (with fault address) and op count of the undebugged run, and ends in the identical machine state. *)
+   if no line of the script is a quit command and the script does not run dry (no EOF at a prompt), the debugged run
+   reports exactly the output, cause (with fault address) and op count of the undebugged run, and ends in the
+   identical machine state.  (Unguarded since finding F11 was fixed: the pause banner shows a word outside the memory
+   segments as such instead of raising; a regression is caught by the campaign as 'pause-banner-fault'.) *)
 Theorem C15_transparent : forall ww sg bps tbl fuel m0 input script,
   let r := debug_run ww sg bps tbl fuel m0 input script in
-  no_quit script = true -> ran_dry r = false -> pause_words_valid r = true ->
+  no_quit script = true -> ran_dry r = false ->
   dobs r = Some (mobs (run ww sg fuel (init m0 input))) /\ d_st r = snd (run ww sg fuel (init m0 input)).
 Proof. exact transparent. Qed.
 Print Assumptions C15_transparent.
@@ -23,7 +24,6 @@ Print Assumptions C15_transparent.
    before the op executes; the script matters only through its resuming actions. *)
 Theorem C15_pauses : forall ww sg bps tbl fuel m0 input script,
   let r := debug_run ww sg bps tbl fuel m0 input script in
-  pause_words_valid r = true ->
   pauses (d_events r) = expected_pauses bps (trace ww sg fuel (init m0 input)) None (actions_of script).
 Proof. exact pauses_debug_run. Qed.
 Print Assumptions C15_pauses.
@@ -71,20 +71,19 @@ Theorem C15_read_var : forall ww sg mm ty len idx a f l v,
 Proof. exact read_var_true. Qed.
 Print Assumptions C15_read_var.
 
-(* ---- finding F11: without the guard the transparency statement is false ----
+(* ---- the former F11 witness: now transparent ----
    w = 8, one segment of 6 words, op 0 jumps to the op in the LAST word (bit 40) whose flip word is the output
-   address 2w+1 = 17 and whose jump word lies outside the segment; breakpoint at 40, script "c".
-   undebugged: one output bit, then memory error at 48 (the jump word); debugged: memory error at 48 raised by the
-   pause banner BEFORE the op - no output. *)
+   address 2w+1 = 17 and whose jump word lies outside the segment; breakpoint at 40, script "c".  The banner shows the
+   jump word as outside the memory segments (None) and the op then runs exactly as undebugged: one output bit,
+   memory error at 48. *)
 Definition f11_words : list (N * N) := [(1, 40); (5, 17)].
 Definition f11_run := debug_run 3 [(0, 6)] [40] [] 10 (mem_of_list f11_words) [] [L "c"].
 
-Example C15_transparent_refuted :
-  no_quit [L "c"] = true /\ ran_dry f11_run = false /\
-  dobs f11_run = Some ([], MemErr 48, 1) /\
-  mobs (run 3 [(0, 6)] 10 (init (mem_of_list f11_words) [])) = ([true], MemErr 48, 1) /\
-  dobs f11_run <> Some (mobs (run 3 [(0, 6)] 10 (init (mem_of_list f11_words) []))).
-Proof. vm_compute. repeat split; discriminate. Qed.
+Example C15_banner_outside_segments :
+  d_events f11_run = [EvPause true 40 1 (Some 17) None; EvAct AContinue] /\
+  dobs f11_run = Some ([true], MemErr 48, 1) /\
+  dobs f11_run = Some (mobs (run 3 [(0, 6)] 10 (init (mem_of_list f11_words) []))).
+Proof. vm_compute. repeat split. Qed.
 
 (* ---- the hypotheses are satisfiable on non-trivial runs ---- *)
 (* w = 8: a ring of three ops 0 -> 32 -> 64 -> 32 ... that outputs a bit at 32 and loops for ever; breakpoint at 32;
@@ -95,7 +94,7 @@ Definition nv_script := [L "r :b2:0"; L "s"; L "s 2"; L "h"; L "c"; L "c*"].
 Definition nv_run := debug_run 3 [(0, 12)] [32] [] 12 (mem_of_list nv_words) [] nv_script.
 
 Example C15_nonvacuous :
-  no_quit nv_script = true /\ ran_dry nv_run = false /\ pause_words_valid nv_run = true /\
+  no_quit nv_script = true /\ ran_dry nv_run = false /\
   pauses (d_events nv_run) = [(32, 1); (64, 2); (32, 3); (32, 5)] /\
   ops (d_st nv_run) = 12 /\ d_cause nv_run = DM OutOfFuel /\ List.length (outp (d_st nv_run)) = 6%nat.
 Proof. vm_compute. repeat split. Qed.
@@ -103,5 +102,6 @@ Proof. vm_compute. repeat split. Qed.
 Example C15_quit_nonvacuous :
   let r := debug_run 3 [(0, 12)] [32] [] 12 (mem_of_list nv_words) [] [L "s"; L "r 0x20"; L "Q"] in
   d_cause r = DQuit /\ ops (d_st r) = 2 /\
-  d_events r = [EvPause true 32 1 17 64; EvAct AStep; EvPause false 64 2 0 32; EvReadWord 32 17; EvAct AExit].
+  d_events r = [EvPause true 32 1 (Some 17) (Some 64); EvAct AStep; EvPause false 64 2 (Some 0) (Some 32);
+                EvReadWord 32 17; EvAct AExit].
 Proof. vm_compute. repeat split. Qed.
